@@ -383,5 +383,5 @@ func c14Builder(c *Ctx) {
 	}
 	// every recovery / throw node of the grammar becomes a runtime node, unconditionally (node type, all keys on every
 	// path, no emission guard other than the nil test): a handler that is not emitted is never in force
-	builderPairing(c, "C14-c", "writeRecoveryExpr", "writeThrowExpr")
+	builderPairingN(c, "C14-c", "writeRecoveryExpr", "writeThrowExpr")
 }
